@@ -60,12 +60,12 @@ Definition pvalue (k : kind) (r : reading) : option f64 :=
 (* fle, in_hull (Model/Sensor.v) and in_hullb, in_hullb_spec (Proofs/Sensor.v): the average lies
    between two of the values seen so far (initial value included) *)
 
-(* per-step contraction, exact integer arithmetic in units of 2^-1074:
-     n*|x - a'| <= (n-1)*|x - a| + n*(2^-51 * max(|x|,|a|) + 2^-1074)            *)
+(* per-step contraction, exact integer arithmetic in units of 2^-1074 (the slack of theorem
+   C08_converges):   n*|x - a'| <= (n-1)*|x - a| + n*(2^-50 * (|x|+|a|) + 2^-1074)            *)
 Definition contractsb (n : Z) (a x a' : f64) : bool :=
   match fz a, fz x, fz a' with
   | Some A, Some X, Some A' =>
-      n * Z.abs (X - A') * 2 ^ 51 <=? (n - 1) * Z.abs (X - A) * 2 ^ 51 + n * (Z.max (Z.abs X) (Z.abs A) + 2 ^ 51)
+      n * Z.abs (X - A') * 2 ^ 50 <=? (n - 1) * Z.abs (X - A) * 2 ^ 50 + n * (Z.abs X + Z.abs A + 2 ^ 50)
   | _, _, _ => false
   end.
 
@@ -89,7 +89,7 @@ Definition holdsb (c : case) : bool :=
 (* ---- Prop forms and the proof that the observers decide them ---- *)
 Definition contracts (n : Z) (a x a' : f64) : Prop :=
   exists A X A', fz a = Some A /\ fz x = Some X /\ fz a' = Some A' /\
-    n * Z.abs (X - A') * 2 ^ 51 <= (n - 1) * Z.abs (X - A) * 2 ^ 51 + n * (Z.max (Z.abs X) (Z.abs A) + 2 ^ 51).
+    n * Z.abs (X - A') * 2 ^ 50 <= (n - 1) * Z.abs (X - A) * 2 ^ 50 + n * (Z.abs X + Z.abs A + 2 ^ 50).
 
 Lemma contractsb_spec n a x a' : contractsb n a x a' = true <-> contracts n a x a'.
 Proof.
